@@ -505,10 +505,10 @@ func (w *World) speculate() {
 	saved := w.S
 	st := TStep{Kind: "spec"}
 	okN := 0
-	// one speculative step in four is a chain of creations (what a multi-message transaction that sets something
+	// one speculative step in three is a chain of creations or of a configuration change and its use (what a multi-message transaction that sets something
 	// up and then fails looks like): the entities exist only inside the discarded branch
 	var creations, template []string
-	if w.intn("spec.create", 4) == 3 {
+	if w.intn("spec.create", 3) == 2 {
 		for _, k := range []string{"addCreditType", "createClass", "createProject", "createBatch", "basketCreate", "put", "bridgeReceive", "sell", "defineResolver", "registerResolver", "anchor", "attest", "addBridgeChain", "addDenom", "addCreator"} {
 			if _, ok := Gens[k]; ok && w.Profile.Weights[k] > 0 {
 				creations = append(creations, k)
@@ -599,6 +599,21 @@ var specTemplates = [][]string{
 	{"createProject", "createBatch", "send", "retire"},
 	{"defineResolver", "registerResolver", "anchor", "attest"},
 	{"addBridgeChain", "bridgeReceive", "bridge"},
+	// a configuration or role change and its first use, both discarded
+	{"setFeeParams", "buy"},
+	{"setFeeParams", "sell", "buy"},
+	{"updClassFee", "createClass"},
+	{"updBasketFee", "basketCreate"},
+	{"addDenom", "sell", "buy"},
+	{"removeDenom", "sell"},
+	{"setAllowlist", "addCreator", "createClass"},
+	{"updDateCriteria", "put"},
+	{"updCurator", "updDateCriteria"},
+	{"updClassIssuers", "createBatch"},
+	{"updClassAdmin", "updClassIssuers"},
+	{"updProjectAdmin", "createBatch"},
+	{"seal", "mint"},
+	{"removeBridgeChain", "bridge"},
 }
 
 // idSets are the identifiers present in one snapshot and not in another, per entity kind.
